@@ -62,6 +62,9 @@ pub struct Diff {
     pub accesses: Vec<(u64, u64, bool, bool)>,
     /// first address at which an emulator area differs from its initial image after a successful step
     pub emu_mem_changed: Option<u64>,
+    /// after a *failed* emulator step: first arena address whose byte changed, and the first GPR/XMM
+    /// register that changed (a faulting instruction changes nothing on the CPU)
+    pub err_changed: (Option<u64>, Option<String>),
 }
 
 pub struct Engine {
@@ -365,7 +368,28 @@ impl Engine {
                 mism.push((Comp::Extra("executed-count".into()), format!("executed count {} -> {} over one step", executed_before, ax.verif_executed())));
             }
         }
-        Diff { ins, valid, emu, emu_regs, native, skip_native, mism, flag_mask, written_gprs, accesses, emu_mem_changed }
+        let mut err_changed: (Option<u64>, Option<String>) = (None, None);
+        if let (Some((ax, _)), Emu::Err(_)) = (&axm, &emu) {
+            for (k, img) in images.iter() {
+                let d = ARENAS.iter().find(|d| d.kind == *k).unwrap();
+                if let Some(em) = ax.verif_area_data(d.base) {
+                    if em != img.as_slice() && err_changed.0.is_none() {
+                        let off = em.iter().zip(img.iter()).position(|(a, b)| a != b).unwrap_or(0);
+                        err_changed.0 = Some(d.base + off as u64);
+                    }
+                }
+            }
+            let er = mach::ax_regs(ax);
+            for i in 0..16 {
+                if er.gpr[i] != pre.gpr[i] && err_changed.1.is_none() {
+                    err_changed.1 = Some(format!("{} {:#x} -> {:#x}", GPR_NAMES[i], pre.gpr[i], er.gpr[i]));
+                }
+                if er.xmm[i] != pre.xmm[i] && err_changed.1.is_none() {
+                    err_changed.1 = Some(format!("xmm{}", i));
+                }
+            }
+        }
+        Diff { ins, valid, emu, emu_regs, native, skip_native, mism, flag_mask, written_gprs, accesses, emu_mem_changed, err_changed }
     }
 
     pub fn render(&self, c: &NCase) -> serde_json::Value {
